@@ -171,7 +171,7 @@ Proof.
   set (s0 := src_of (ref_shp g ++ trailing)).
   assert (Hc0 : clean s0) by (unfold clean, s0, src_of; cbn; split; [reflexivity|lia]).
   assert (Hr0 : s_rest s0 = ref_header (rf_type g) (rf_box g) len ++ (ref_records_bytes rs ++ trailing)).
-  { unfold s_rest, s0, src_of; cbn [s_pos s_data Z.to_nat skipn]. unfold ref_shp. fold rs. fold (declared_words g). fold len.
+  { rewrite s_rest_skipn. unfold s0, src_of; cbn [s_pos s_data Z.to_nat skipn]. unfold ref_shp. fold rs. fold (declared_words g). fold len.
     rewrite <- app_assoc. reflexivity. }
   destruct (Hh s0 _ Hc0 Hr0) as (s1 & Hrun1 & Hc1 & Hd1 & Hp1).
   rewrite zlen_ref_header in Hp1 by exact Hbl.
